@@ -20,7 +20,7 @@ BUILTIN_EXC_PARENT = {
     'AssertionError': 'Exception', 'UnicodeError': 'ValueError', 'NameError': 'Exception',
     'CancelledError': 'BaseException', 'KeyboardInterrupt': 'BaseException',
 }
-BUILTIN_CLASSES = ['object', 'bool', 'int', 'float', 'str', 'list', 'dict', 'tuple', 'set', 'bytes', 'NoneType', 'function']
+BUILTIN_CLASSES = ['coroutine', 'object', 'bool', 'int', 'float', 'str', 'list', 'dict', 'tuple', 'set', 'bytes', 'NoneType', 'function']
 
 
 class ClassInfo:
